@@ -23,8 +23,8 @@ register("C14", lean_modules=["GtModel.Props.C14"], gen=_gt.gen_cli_tables, stre
          trusted=["file-type tables regenerated from /repo by harness/gentables.py"])
 
 register("C13", lean_modules=["GtModel.Props.C13"], gen=_gt.gen_formatter_tables, streams=["dispatch", "matrix"],
-         theorems=["GtModel.C13.dispatch_total", "GtModel.C13.dispatch_total_from_subformatters", "GtModel.C13.edit_dispatch_total", "GtModel.C13.fuel_sufficient"],
-         partial="only the formatter DISPATCH is modelled and proved total; the handler bodies are not modelled: that part is decided on the real code by exhaustive enumeration of the configuration space (stream matrix). Findings D11/D18 (handler bodies) are recorded.",
+         theorems=["GtModel.C13.dispatch_total", "GtModel.C13.dispatch_total_from_subformatters", "GtModel.C13.string_edit_dispatch_total", "GtModel.C13.edit_dispatch_exact", "GtModel.C13.fuel_sufficient"],
+         partial="edit_dispatch_total (true by its always-true right disjunct) is no longer registered: for edits the protocol falls back to the from-node's handler (dispatch_total), and string_edit_dispatch_total / edit_dispatch_exact state which edit classes resolve to a formatter method; only the formatter DISPATCH is modelled and proved total; the handler bodies are not modelled: that part is decided on the real code by exhaustive enumeration of the configuration space (stream matrix). Findings D11/D18 (handler bodies) are recorded.",
          assumptions=["Edited<cls> classes created by make_edited have the MRO (Edited<cls>, EditedTreeNode, cls, ...) (validated: the dispatch stream resolves them on the real classes)"],
          trusted=["formatter registry / class MRO tables regenerated from /repo by harness/gentables.py"])
 
